@@ -16,8 +16,10 @@ EXTENDS SloLayering, TraceCommon
 Secs(e) == [s \in Sections |-> e.cfg[s]]
 
 \* eff: the effective settings after the event; binds the event first (priming an operator primes its arguments)
+\* "= TRUE": evaluated as a value.  Left as an action formula TLC would branch on every true disjunct
+\* inside NoLeakFor and generate the same successor exponentially often.
 Accept(eff, o) ==
-  /\ Expect(ObsOKFor(eff, o) /\ NoLeakFor(eff, o), ExpectedObs(eff))
+  /\ Expect((ObsOKFor(eff, o) /\ NoLeakFor(eff, o)) = TRUE, ExpectedObs(eff))
   /\ obs' = o
 
 TUpdate == IsEvent("update") /\
